@@ -29,8 +29,9 @@
 // mode cycles
 //   live <L>                     persistent worker threads 1..L (main is 0)
 //   cycle sleep_us= slow_us= grace_us= flush_ms= handler=0|1 logger=reuse|fresh remove=0|1 stopper=<tid> drain=0|1
-//   burst tid=<0..L | e>  sizes=<...>      (tid=e: a new thread that logs the burst and exits; joined before Stop;
-//                                           sizes=mod23x<count>: count statements of sizes i % 23)
+//   burst tid=<0..L | e>  sizes=<...> [flush=1]   (tid=e: a new thread that logs the burst and exits; joined before Stop;
+//                                           sizes=mod23x<count>: count statements of sizes i % 23; flush=1: the thread
+//                                           calls flush_log() right after its burst)
 //   After every Stop the cycle's log file is copied to snap<i>.txt with plain syscalls (what is flushed at that instant).
 //
 // exit codes of the child itself (harness problems, never a verdict about quill): 90 bad spec, 77 survived a signal,
@@ -192,6 +193,7 @@ struct ThreadSpec
 struct Burst
 {
   bool ephemeral{false};
+  bool flush{false}; // the thread calls flush_log() right after the burst (other threads may be logging / exiting meanwhile)
   unsigned tid{0};
   std::vector<unsigned> sizes;
 };
@@ -303,6 +305,7 @@ Spec build_spec(std::vector<Line> const& lines)
       if (t == "e") b.ephemeral = true;
       else b.tid = static_cast<unsigned>(std::strtoul(t.c_str(), nullptr, 10));
       b.sizes = parse_sizes(kv_str(l.kv, "sizes", ""));
+      b.flush = kv_int(l.kv, "flush", 0) != 0;
       s.cycles.back().bursts.push_back(b);
     }
     else bad_spec("unknown directive '" + l.key + "'");
@@ -707,6 +710,7 @@ struct Program
     {
       if (b.ephemeral || b.tid != tid) continue;
       for (unsigned sz : b.sizes) log_one(logger, tid, next_seq[tid]++, sz);
+      if (b.flush) logger->flush_log();
     }
   }
 
@@ -771,6 +775,7 @@ struct Program
           {
             unsigned seq = 0;
             for (unsigned sz : b.sizes) log_one(logger, etid, seq++, sz);
+            if (b.flush) logger->flush_log();
           });
       }
       run_bursts_of(0, c, logger);
